@@ -585,7 +585,7 @@ def run(ck):
     keep0 = (ck.rule, ck.verdict, ck.violation, ck.broken, ck.floor, ck.holds)
     ck.rule = lambda *a, **k: None
     ck.floor = lambda *a, **k: True
-    only = lambda key: key == 'payload_plausible'
+    only = lambda key: key in ('payload_plausible', 'payload_plausible:octets:reject')
     ck.verdict = lambda ok, rule, key, where='', detail='', **kw: (keep0[5] if ok else keep0[2])('C08.e', 'receiver:' + key, where, detail, **kw) if only(key) else None
     ck.violation = lambda rule, key, where='', detail='', **kw: keep0[2]('C08.e', 'receiver:' + key, where, detail, **kw) if only(key) else None
     ck.broken = lambda rule, key, where='', detail='', **kw: keep0[3]('C08.e', 'receiver:' + key, where, detail, **kw) if only(key) else None
